@@ -92,6 +92,25 @@ func (x *Exec) tokenEvent(st, evSt *State, evKind, evTgt string, cond *Term) {
 	}
 }
 
+// tokenReturnEvent: a call made by the function under verification has returned. An acquire pattern
+// "ok:<func>" acquires the token when the call's last result (an error) is nil.
+func (x *Exec) tokenReturnEvent(st *State, key string, res Value) {
+	var last Value = res
+	if tv, ok := res.(*TupleV); ok && len(tv.Elems) > 0 {
+		last = tv.Elems[len(tv.Elems)-1]
+	}
+	iv, ok := last.(*IfaceV)
+	if !ok {
+		return
+	}
+	isNil := Eq(iv.Tag, IntConstI(0))
+	for _, d := range x.tokenDecls() {
+		if d.acqKind == "ok" && tokenMatches("call", d.acqTgt, "call", key) {
+			st.ghost[tokenKey(d.name)] = Or(x.tokenValue(st, d.name), isNil)
+		}
+	}
+}
+
 // havocTokens forgets the tokens at a loop head.
 func (x *Exec) havocTokens(st *State) {
 	for _, d := range x.tokenDecls() {
